@@ -142,6 +142,13 @@ def scenario_loop_and_index_rules(ctx: Ctx):
     ctx.ob("R16.8", f"no scenario index is tested for truthiness in {n_fn} functions", None, True, "indices are compared with None", nontrivial=False)
 
 
+def run_extra(ctx: Ctx):
+    # ---------------------------------------------------------------- R16.10 answers never come from state that outlives the question
+    from .common import process_state_rule
+    process_state_rule(ctx, "R16.10", [ctx.repo.func("Project.schedule"), ctx.repo.func("ProjectFileParser.parse")],
+                       "one scenario is answered with what was computed for another", census=False)
+
+
 def run(ctx: Ctx):
     repo = ctx.repo
     sched = repo.func("Project.schedule")
